@@ -67,6 +67,7 @@ class CVMTest(BaseStatisticalTest):
             self._X_ref = None  # noqa: N806
 
     def _specific_checks(self, X: np.ndarray) -> None:  # noqa: N803
+        super()._specific_checks(X=X)
         self._check_sufficient_samples(X=X)
 
     @staticmethod
